@@ -7,6 +7,7 @@ import (
 	"runtime/pprof"
 
 	"verifharness/core"
+	"verifharness/props/c01"
 	"verifharness/props/c02"
 	"verifharness/props/c04"
 	"verifharness/props/c06"
@@ -24,19 +25,20 @@ import (
 )
 
 var checks = map[string]func(*core.Ctx) int{
-	"C02": c02.Run,
-	"C04": c04.Run,
-	"C06": c06.Run,
-	"C08": c08.Run,
-	"C09": c09.Run,
-	"C10": c10.Run,
-	"C11": c11.Run,
-	"C12": c12.Run,
-	"C13": c13.Run,
-	"C14": c14.Run,
-	"C15": c15.Run,
-	"C17": c17.Run,
-	"C18": c18.Run,
+	"C01":   c01.Run,
+	"C02":   c02.Run,
+	"C04":   c04.Run,
+	"C06":   c06.Run,
+	"C08":   c08.Run,
+	"C09":   c09.Run,
+	"C10":   c10.Run,
+	"C11":   c11.Run,
+	"C12":   c12.Run,
+	"C13":   c13.Run,
+	"C14":   c14.Run,
+	"C15":   c15.Run,
+	"C17":   c17.Run,
+	"C18":   c18.Run,
 	"smoke": smoke.Run,
 }
 
